@@ -407,6 +407,29 @@ def r5_no_unaccounted_success_path(ctx):
     R.check(bool(ins) and bool(rel), "C18.R5", "subscribe:shape", "the arm re-inserts the subscription or releases the reservation", "process_single_response's pending-subscription arm has %d insert_subscription and %d reservation releases" % (len(ins), len(rel)), "%s:%d" % (psr.file, psr.lo))
     ok = flow.all_paths_pass(psr, m, {x.bb for x in ins} | {x.bb for x in rel}, psr.exits)
     R.check(ok, "C18.R5", "subscribe:every-exit-reinserts-or-releases", "after the pending subscription was taken out, every way out re-inserts it as active or releases the reserved unsubscribe id", "process_single_response can leave its pending-subscription arm without inserting the subscription and without releasing the reserved unsubscribe id: that id stays pending forever (it swallows a later response bearing it, and an unsubscribe request using it is refused as a duplicate and never sent)", "%s:%d" % (psr.file, block_line(psr, m)))
+    # (c) the front-end's "I am done with this method subscription" message always removes the handler: on the
+    # UnregisterNotification arm of handle_frontend_messages every path goes through remove_notification_handler
+    hfm = F.one(r"^jsonrpsee_core::client::async_client::handle_frontend_messages::\{closure#0\}$")
+    R.fn(hfm)
+    adt = F.adt("jsonrpsee_core::client::FrontToBack")
+    if adt is None:
+        raise AnchorLost("enum FrontToBack")
+    vidx = {v["n"]: str(i) for i, v in enumerate(adt["variants"])}
+    arm = None
+    for bi, blk in enumerate(hfm.blocks):
+        t = blk["term"]
+        if t and t["t"] == "switch" and bi in hfm.reachable:
+            p0 = op_place(t["discr"])
+            if p0 is None:
+                continue
+            for b3, s3, d3, src in hfm.defs.get(p0["l"], []):
+                if src[0] == "rv" and src[1]["k"] == "discr" and hfm.locals[src[1]["pl"]["l"]]["ty"].endswith("client::FrontToBack"):
+                    arms = {v: tb for v, tb in t["arms"]}
+                    arm = arms.get(vidx["UnregisterNotification"], t["otherwise"] if len(arms) == len(vidx) - 1 else None)
+    if arm is None:
+        raise AnchorLost("UnregisterNotification arm of handle_frontend_messages")
+    rm = [c for c in hfm.calls_to(r"RequestManager::remove_notification_handler$") if hfm.dominates(arm, c.bb)]
+    R.check(bool(rm) and flow.all_paths_pass(hfm, arm, {c.bb for c in rm}, hfm.exits), "C18.R5", "unregister:always-removes-handler", "UnregisterNotification removes the handler on every path", "the UnregisterNotification arm of handle_frontend_messages can finish without removing the notification handler: the entry stays for good (Subscription::unsubscribe on a method subscription never completes, the method cannot be registered again)", "%s:%d" % (hfm.file, block_line(hfm, arm)))
     # on the paths through insert_subscription's failure, the reservation is released too
     for x in ins:
         for q in psr.calls_to(r"Result::<.*>::is_ok$"):
@@ -415,6 +438,41 @@ def r5_no_unaccounted_success_path(ctx):
                     ft = arms.get("0")
                     if ft is not None:
                         R.check(flow.all_paths_pass(psr, ft, {y.bb for y in rel}, psr.exits) or ft in {y.bb for y in rel}, "C18.R5", "subscribe:refused-insert-releases", "a refused insert releases the reservation", "a refused insert_subscription leaves the reserved unsubscribe id pending", "%s:%d" % (psr.file, block_line(psr, ft)))
+
+
+GROW = r"(HashSet|HashMap|BTreeSet|BTreeMap)::<.*>::(insert|entry|extend)$|(Vec|VecDeque)::<.*>::(push|push_back|push_front|insert|extend|extend_from_slice|append)$"
+SHRINK = r"(HashSet|HashMap|BTreeSet|BTreeMap|Vec|VecDeque)::<.*>::(remove|remove_entry|take|pop|pop_front|pop_back|clear|drain|retain|truncate|swap_remove|split_off)$|^std::mem::(take|replace)$"
+COLL = re.compile(r"^(std::collections::(hash::\w+::)?|rustc_hash::)?(Fx)?(HashSet|HashMap|BTreeSet|BTreeMap)<|^std::collections::(VecDeque|BTreeMap|BTreeSet|HashMap|HashSet)<|^std::vec::Vec<")
+
+
+def r6_no_state_outside_the_manager(ctx):
+    """all per-request / per-subscription bookkeeping lives in the RequestManager, whose every path R1/R2/R5 price. The
+    client's long-running tasks (read task, send task) keep no collection of their own that is only ever added to: a local
+    set/map/vector that outlives a loop iteration and receives inserts inside the loop must also be emptied there,
+    otherwise it grows with every finished subscription (and an id remembered in it captures a later subscription that the
+    server gives the same id)."""
+    F, R = ctx.F, ctx.R
+    n = 0
+    for pat in (r"^jsonrpsee_core::client::async_client::read_task::\{closure#0\}$", r"^jsonrpsee_core::client::async_client::send_task::\{closure#0\}$", r"^jsonrpsee_core::client::async_client::wait_for_shutdown::\{closure#0\}$"):
+        for b in F.find(pat):
+            R.fn(b)
+            n += 1
+            for l, d in enumerate(b.locals):
+                if l == 0 or not COLL.match(d["ty"]) or not d.get("user"):
+                    continue
+                # mutable borrows of the local feed grow / shrink calls
+                refs = set()
+                for x, defs in b.defs.items():
+                    for bi, si, dpl, src in defs:
+                        if src[0] == "rv" and src[1]["k"] == "ref" and src[1]["pl"]["l"] == l:
+                            refs |= follow_value(b, x)
+                grow = [c for c in b.calls_to(GROW) if c.args and op_place(c.args[0]) is not None and op_place(c.args[0])["l"] in refs]
+                shrink = [c for c in b.calls_to(SHRINK) if c.args and op_place(c.args[0]) is not None and op_place(c.args[0])["l"] in refs]
+                in_loop = [c for c in grow if b.can_reach(c.bb, c.bb)]
+                if in_loop and not shrink:
+                    R.bad("C18.R6", "%s:grow-only:%s" % (fkey(b), d["ty"].split("<")[0].split("::")[-1]), "%s keeps a %s that is only ever added to, once per loop iteration (%s): the client's memory grows with the number of subscriptions/requests it has finished, and an id remembered there captures later work that reuses it" % (short(b.path), d["ty"][:60], short(in_loop[0].name())), where(in_loop[0]))
+    R.ok("C18.R6", "tasks-keep-no-grow-only-state", "no grow-only collection in the %d long-running client task bodies" % n)
+    R.floor("C18.R6", n, 3, "long-running client task bodies")
 
 
 def rarr_every_element(ctx):
@@ -437,7 +495,7 @@ def _borrowed(modname, fname):
 BORROWED = [_borrowed("c03", "r4_completion_consumes"), _borrowed("c05", "r6_refused_insert_is_pure")]
 
 
-RULES = [r1_effect_summaries, r2_ledger, r3_notification_arms, r4_lost_drop_is_recovered, r5_no_unaccounted_success_path, rarr_every_element] + BORROWED
+RULES = [r1_effect_summaries, r2_ledger, r3_notification_arms, r4_lost_drop_is_recovered, r5_no_unaccounted_success_path, r6_no_state_outside_the_manager, rarr_every_element] + BORROWED
 
 LEVEL_TEXT = (
     "A ledger over the client's four private tables decided from the type-checked program: per-method effect summaries "
